@@ -52,10 +52,14 @@ type ocCase struct {
 	// PMD: the server is configured with perMessageDeflate (threshold 0 or 1024): the websocket writer takes its
 	// compression branch
 	PMD int // 0: not configured; otherwise threshold+1
+	// Reconnect: shutdown cases: a client reconnects (a new polling handshake) from the close notification of its
+	// old session, i.e. while the shutdown is still going through the table. Whether the shutdown catches the new
+	// session as well is not fixed; the table, the count and the set of live sessions must agree afterwards
+	Reconnect bool
 }
 
 func (c ocCase) String() string {
-	return fmt.Sprintf("{%+v close=%s target=%d midUpgrade=%v finishUpgrade=%v closeIn=%q closeHeld=%v perMessageDeflate=%d}", c.Sess, c.Close, c.Target, c.MidUpgrade, c.FinishUpgrade, c.CloseIn, c.CloseHeld, c.PMD)
+	return fmt.Sprintf("{%+v close=%s target=%d midUpgrade=%v finishUpgrade=%v closeIn=%q closeHeld=%v perMessageDeflate=%d reconnect=%v}", c.Sess, c.Close, c.Target, c.MidUpgrade, c.FinishUpgrade, c.CloseIn, c.CloseHeld, c.PMD, c.Reconnect)
 }
 
 func genC12(rt *rapid.T, gates bool, known bool, col *Collector) ocCase {
@@ -93,6 +97,7 @@ func genC12(rt *rapid.T, gates bool, known bool, col *Collector) ocCase {
 			c.Sess[i].PreClose = false
 		}
 	}
+	c.Reconnect = (c.Close == "server" || c.Close == "httpServer") && rapid.IntRange(0, 2).Draw(rt, "reconnect") == 0
 	c.Target = rapid.IntRange(0, n-1).Draw(rt, "target")
 	c.MidUpgrade = rapid.IntRange(0, 4).Draw(rt, "midUpgrade") == 0
 	c.FinishUpgrade = c.MidUpgrade && c.Close == "close" && rapid.Bool().Draw(rt, "finishUpgrade")
@@ -348,6 +353,14 @@ func runC12(c ocCase) (fail string, stats map[string]bool) {
 			}
 		}
 	}
+	// a client that reconnects from the close notification of its old session
+	var again *PollClient
+	if c.Reconnect {
+		ss[0].sr.Sock.Once("close", func(...any) {
+			again = &PollClient{W: w, O: ClientOpts{Rev: 4}}
+			again.StartHandshake()
+		})
+	}
 	closeCallAt := w.now()
 	// ---- the close ----
 	var closing []*ocSess
@@ -447,6 +460,21 @@ func runC12(c ocCase) (fail string, stats map[string]bool) {
 		for _, s := range ss {
 			if len(s.sr.Closes) == 0 {
 				left++
+			}
+		}
+		if again != nil {
+			Settle()
+			if err := again.FinishHandshake(); err == nil {
+				stats["reconnect-during-the-shutdown"] = true
+				if nsr := w.Get(again.Sid); nsr != nil && len(nsr.Closes) == 0 {
+					// the newcomer escaped the shutdown: it is a live session like any other
+					stats["session-created-during-the-shutdown-survives-it"] = true
+					left++
+					if _, ok := w.Srv.Clients().Load(again.Sid); !ok {
+						return fmt.Sprintf("right after %s: the session %s opened during the shutdown is alive but not in the client table (table %v, count %d)", c.Close, short(again.Sid), shortAll(w.RegistryKeys()), w.Srv.ClientsCount()), stats
+					}
+					defer nsr.Sock.Close(true)
+				}
 			}
 		}
 		if keys := w.RegistryKeys(); len(keys) != left || w.Srv.ClientsCount() != uint64(left) {
@@ -628,7 +656,26 @@ func runC12(c ocCase) (fail string, stats map[string]bool) {
 		}
 	}
 	if c.Close == "server" || c.Close == "httpServer" {
+		if again != nil {
+			// the session opened during the shutdown is taken out of the picture first
+			if nsr := w.Get(again.Sid); nsr != nil && len(nsr.Closes) == 0 {
+				nsr.Sock.Close(true)
+				Settle()
+			}
+		}
 		pass(31 * time.Second)
+		if again != nil {
+			// (the old session may have closed only now, by its close timeout: the client reconnected then)
+			Settle()
+			again.FinishHandshake()
+			if nsr := w.Get(again.Sid); nsr != nil && len(nsr.Closes) == 0 {
+				if _, ok := w.Srv.Clients().Load(again.Sid); !ok {
+					return fmt.Sprintf("after %s: the session %s opened by the reconnecting client is alive but not in the client table", c.Close, short(again.Sid)), stats
+				}
+				nsr.Sock.Close(true)
+				Settle()
+			}
+		}
 		if keys := w.RegistryKeys(); len(keys) != 0 || w.Srv.ClientsCount() != 0 {
 			return fmt.Sprintf("after %s: client table %v, count %d", c.Close, shortAll(keys), w.Srv.ClientsCount()), stats
 		}
@@ -690,7 +737,7 @@ func TestC12OrderlyClose(t *testing.T) {
 		})
 	}
 	req := []string{"upgrade-completed-while-closing", "session-still-closing-at-shutdown", "graceful-close", "discarding-close", "server-close", "http-server-close", "shutdown>=2-sessions", "client-never-polls-again", "close-during-upgrade", "upgraded-session", "carrier.polling", "carrier.websocket", "carrier.webtransport", "close-while-writer-parked", "last-word-and-close-from-a-flush-listener", "last-word-and-close-from-a-drain-listener", "last-word-and-close-from-a-srv.flush-listener"}
-	req = append(req, "buffer-handed-over-while-the-closer-is-inside-Close", "perMessageDeflate-configured")
+	req = append(req, "buffer-handed-over-while-the-closer-is-inside-Close", "perMessageDeflate-configured", "reconnect-during-the-shutdown")
 	col.RequireClasses(t, req...)
 }
 
